@@ -14,7 +14,7 @@ import (
 )
 
 func init() {
-	register("C03", checkC03, "CRC16 is treated as an uninterpreted function. R3.1: for every RTU encoder (each Bytes() method of package packet that calls CRC16: 10 requests, 10 responses, the exception) the write map of the returned buffer is extracted symbolically in all field values (requests under their constructor's invariant, responses under the premise that the payload fits a Modbus PDU); the buffer must be tiled without gaps, CRC16 must be applied to exactly buf[0:L-2], nothing may be written into that range afterwards, and the last two bytes must be the low then the high byte of that call's result. R3.2: in the CRC-verifying parse entry points every path that reaches the inner parser or returns a value is dominated by the equality of the little-endian trailer with CRC16(data[0:len-2]) on the same input, and every rejecting path of the wrapper itself is infeasible when that equality and the minimum length hold. What is NOT decided: that CRC16's arithmetic is the Modbus CRC (needs execution or proof of a loop against a mathematical definition). R3.1 is evaluated under the constructor's success state and again for arbitrary struct contents (a parsed request can be re-encoded). R3.2 targets are all exported packet functions that call CRC16 on their input (call graph, not names). R3.3 the RTU clients install CRC-verifying functions (C12 R12.1/R12.2). R3.4 (constants only, the arithmetic is not decided): the accumulator's initial value 0xFFFF and the reflected polynomial 0xA001 occur in CRC16, or it indexes a never-written constant 256-entry table equal to the table that polynomial defines (reference table computed by the checker from the specification). R3.5 = shared-state rule from CRC16 and every function of the module that calls it (no lazily filled table, no shared scratch state). R3.0 requires the walked slice to be the whole argument on every path (not a clamped or trimmed view).")
+	register("C03", checkC03, "CRC16 is treated as an uninterpreted function. R3.1: for every RTU encoder (each Bytes() method of package packet that calls CRC16: 10 requests, 10 responses, the exception) the write map of the returned buffer is extracted symbolically in all field values (requests under their constructor's invariant, responses under the premise that the payload fits a Modbus PDU); the buffer must be tiled without gaps, CRC16 must be applied to exactly buf[0:L-2], nothing may be written into that range afterwards, and the last two bytes must be the low then the high byte of that call's result. R3.2: in the CRC-verifying parse entry points every path that reaches the inner parser or returns a value is dominated by the equality of the little-endian trailer with CRC16(data[0:len-2]) on the same input, and every rejecting path of the wrapper itself is infeasible when that equality and the minimum length hold. What is NOT decided: that CRC16's arithmetic is the Modbus CRC (needs execution or proof of a loop against a mathematical definition). R3.1 is evaluated under the constructor's success state and again for arbitrary struct contents (a parsed request can be re-encoded). R3.2 targets are all exported packet functions that call CRC16 on their input (call graph, not names). R3.3 the RTU clients install CRC-verifying functions (C12 R12.1/R12.2). R3.4 (constants only, the arithmetic is not decided): the accumulator's initial value 0xFFFF and the reflected polynomial 0xA001 occur in CRC16, or it indexes a never-written constant 256-entry table equal to the table that polynomial defines (reference table computed by the checker from the specification). R3.5 = shared-state rule from CRC16 and every function of the module that calls it (no lazily filled table, no shared scratch state). R3.0 requires the walked slice to be the whole argument on every path (not a clamped or trimmed view). R3.4 also interprets the routine on the empty input (result 0xFFFF). R3.6: outside package packet no function writes into bytes obtained from a Request's Bytes().")
 }
 
 // encoderInstance: receiver value and entry state under which an encoder of named type tn
